@@ -64,6 +64,8 @@ class SimServer:
         sim._nservers = self.index + 1
         self.generation = 0
         self.inbox: list[tuple] = []
+        self.inflight: list[_Slot] = []
+        self.on_start: list[Callable[[], None]] = []
         self.proc: Any = None
         self.servicer: Any = None
         self.inner: Any = None
@@ -89,15 +91,20 @@ class SimServer:
         for i in range(self.pool):
             t = sim.spawn(self.proc, "srv%s%d.%d" % (tag, self.generation, i), self._worker)
             t.daemon = True
+            t.serving = None
+        for cb in self.on_start:
+            cb()
 
     def crash(self) -> None:
         """kill -9 of the server process: queued and in-flight requests fail UNAVAILABLE."""
         self.down = True
         self.sim.crash(self.proc)
-        for item in self.inbox:
-            item[3].error = (grpc.StatusCode.UNAVAILABLE, "server died")
-            item[3].done = True
-        self.inbox = []  # a new list: workers of the dead generation keep the old one
+        for slot in [item[3] for item in self.inbox] + self.inflight:
+            if not slot.done:
+                slot.error = (grpc.StatusCode.UNAVAILABLE, "server died")
+                slot.done = True
+        self.inbox = []  # new lists: workers of the dead generation keep the old ones
+        self.inflight = []
 
     def crash_and_restart(self) -> None:
         self.crash()
@@ -106,30 +113,41 @@ class SimServer:
     def _worker(self) -> None:
         sim = self.sim
         inbox = self.inbox
+        inflight = self.inflight
         servicer = self.servicer
+        proc = self.proc
         while True:
             sim.block_until(lambda: bool(inbox), "srv.idle")
-            method, reqtype, wire, slot = inbox.pop(0)
+            method, reqtype, wire, slot, client = inbox.pop(0)
             slot.taken = True
+            inflight.append(slot)
+            sim.cur.serving = (client, method)
             sim.seam("rpc.recv", method)
             sim.count("rpc.served")
             req = reqtype.FromString(wire)
             ctx = SimContext()
+            reply = error = None
             try:
                 rep = getattr(servicer, method)(req, ctx)
-                slot.reply = (type(rep), rep.SerializeToString())
+                reply = (type(rep), rep.SerializeToString())
             except _Abort:
-                slot.error = (ctx.code, ctx.details)
+                error = (ctx.code, ctx.details)
             except SimKilled:
                 raise
             except Exception as e:  # grpc turns uncaught exceptions into UNKNOWN
-                slot.error = (grpc.StatusCode.UNKNOWN, "Exception calling application: %r" % (e,))
+                error = (grpc.StatusCode.UNKNOWN, "Exception calling application: %r" % (e,))
                 sim.count("rpc.unknown_error")
+            if proc.dead:
+                raise SimKilled()  # the process died inside the handler: nothing leaves it
+            slot.reply, slot.error = reply, error
             if self.max_delay > 0 and self._delay_rng.random() < 0.3:
                 # the reply is held up on its way back (replies of one client may be re-ordered)
                 sim.count("rpc.reply_delayed")
                 sim.sleep(self._delay_rng.random() * self.max_delay)
+            sim.cur.serving = None
             slot.done = True
+            if slot in inflight:
+                inflight.remove(slot)
             sim.seam("rpc.reply", method)
 
     # ------------------------------------------------------------------ clients
@@ -172,7 +190,7 @@ class SimServer:
         if self.down:
             raise SimRpcError(grpc.StatusCode.UNAVAILABLE, "server down")
         slot = _Slot(method)
-        self.inbox.append((method, type(request), wire, slot))
+        self.inbox.append((method, type(request), wire, slot, me))
         sim.block_until(lambda: slot.done, "rpc")
         if self.fault is not None and self.fault(me, method, "post"):
             sim.count("rpc.reset_post")
